@@ -9,6 +9,7 @@ CONSTANTS
   Kinds = {"rodgers"}
   Rule = "spec"
   RodVariant = "norm_columns"
+  SignedNodes = "no"
   Export = FALSE
 INVARIANT InvalidNeverNaN
 INVARIANT OnePerLayer
